@@ -450,6 +450,14 @@ pub fn run_c04(thorough: bool) -> i32 {
         let lim = Limits { max_depth: p.depth, max_states: 3_000_000, max_wall_s: if thorough { 1500.0 } else { 120.0 } };
         r.run_scenario(&p.sc, lim, &["SubmitBatch:ok", "LiquidStake:ok"]);
     }
+    // ... and on the crowded batches (more than a hundred requesters in one batch) of the withdrawal search
+    for mut p in ledger::plans("C05", false).into_iter().filter(|p| p.sc.name.ends_with("+deep")) {
+        p.sc.seeds.retain(|(n, _)| n.ends_with("many_requesters"));
+        p.sc.name = format!("c04-{}", p.sc.name);
+        p.sc.props = vec!["C04"];
+        let lim = Limits { max_depth: p.depth, max_states: 3_000_000, max_wall_s: 120.0 };
+        r.run_scenario(&p.sc, lim, &["SubmitBatch:ok"]);
+    }
     r.finish()
 }
 
